@@ -144,17 +144,23 @@ def range_tokens(rs):
 
 
 def normalise_range(spec):
-    """what TimeRange.__init__ makes of (start, end, absolute, p1_t0) — C13's subject; recomputed here only to
-    cross-check the state the harness reports (a mismatch is reported, not silently used)."""
+    """the interval a time range means, as TimeRange documents it (C13's subject): absolute when told so, otherwise
+    absolute iff start or end is a Timestamp (valid or not); an invalid Timestamp is an open end; an absolute start
+    of 0 is an open start.  Endpoint representations: spec['rs'] / spec['re'] in 'f' (float), 't' (Timestamp),
+    'x' (invalid Timestamp()); spec['ts'] = both Timestamps."""
     if spec is None:
         return None
+    both = 't' if spec.get('ts') else 'f'
+    rs, re_ = spec.get('rs', both), spec.get('re', both)
+    s = None if rs == 'x' else spec['start']
+    e = None if re_ == 'x' else spec['end']
+    is_ts = lambda rep, v: rep == 'x' or (rep == 't' and v is not None)
     absolute = spec['abs']
     if absolute is None:
-        absolute = bool(spec.get('ts')) and (spec['start'] is not None or spec['end'] is not None)
-    s, e = spec['start'], spec['end']
+        absolute = is_ts(rs, spec['start']) or is_ts(re_, spec['end'])
     if absolute and s == 0:
         s = None
-    return {'start': s, 'end': e, 'abs': absolute, 't0': spec.get('t0')}
+    return {'start': s, 'end': e, 'abs': bool(absolute), 't0': spec.get('t0')}
 
 
 # ---------------------------------------------------------------------------------------------------------
